@@ -358,22 +358,43 @@ func decodeGen(r *rand.Rand, n int, tier string, emit func(Case)) {
 					}
 				}
 			}
+			// ... or stay on a small lattice (touching, nested, overlapping and valid neighbours), with EMPTY members at any position
+			val := func() float64 { return wildValue(r) }
+			if r.Intn(2) == 0 {
+				val = func() float64 { return float64(r.Intn(7)) }
+			}
 			var polys []geom.Polygon
 			for k, np := 0, 1+r.Intn(3); k < np; k++ {
+				if r.Intn(4) == 0 {
+					polys = append(polys, geom.Polygon{})
+				}
 				var rings []geom.LineString
 				for h, nh := 0, 1+r.Intn(3); h < nh; h++ {
 					var fs []float64
+					if h == 0 && r.Intn(3) == 0 { // a valid triangle or square somewhere on the lattice
+						x, y, d := float64(r.Intn(5)), float64(r.Intn(5)), float64(1+r.Intn(2))
+						fs = []float64{x, y, x + d, y, x, y + d}
+						if r.Intn(2) == 0 {
+							fs = []float64{x, y, x + d, y, x + d, y + d, x, y + d}
+						}
+						fs = append(fs, fs[0], fs[1])
+						rings = append(rings, geom.NewLineString(geom.NewSequence(fs, geom.DimXY)))
+						break
+					}
 					for j, m := 0, 3+r.Intn(3); j < m; j++ {
-						fs = append(fs, wildValue(r), wildValue(r))
+						fs = append(fs, val(), val())
 					}
 					fs = append(fs, fs[0], fs[1])
 					rings = append(rings, geom.NewLineString(geom.NewSequence(fs, geom.DimXY)))
 				}
 				polys = append(polys, geom.NewPolygon(rings))
+				if r.Intn(6) == 0 {
+					polys = append(polys, geom.Polygon{})
+				}
 			}
 			switch r.Intn(3) {
 			case 0:
-				put3(polys[0].AsGeometry())
+				put3(polys[len(polys)-1].AsGeometry())
 			case 1:
 				put3(geom.NewMultiPolygon(polys).AsGeometry())
 			default:
